@@ -11,6 +11,7 @@ mod c11;
 mod c12;
 mod c14;
 mod c17;
+mod c20;
 mod c21;
 mod c23;
 mod c24;
@@ -35,6 +36,7 @@ pub fn run(item: &str, repo: &str, out: &str) -> Result<String, String> {
         c12::run,
         c14::run,
         c17::run,
+        c20::run,
         c21::run,
         c23::run,
         c24::run,
